@@ -32,7 +32,7 @@ ASSUMPTIONS = ["TestScheduler / HistoricalScheduler are the clocks (ordering che
                "subscribed at the same instant before the first element"]
 CASES = {"quick": 3600, "thorough": 600000}
 OPS = ["group_by", "group_by_until", "group_by_until", "partition"]
-REQUIRED = {"set:ops": 3, "set:keys": 7,
+REQUIRED = {"set:ops": 3, "set:keys": 7, "derived_duration_elements": {"quick": 1500, "thorough": 200000},
             "groups_with_falsy_key": {"quick": 100, "thorough": 5000},
             "elements_joining_group_of_equal_key_of_other_type": {"quick": 30, "thorough": 600},
             "groups_reborn_after_expiry": {"quick": 50, "thorough": 1000},
@@ -302,10 +302,77 @@ def run_case(seed: int, idx: int, res: UnitResult) -> None:
         run_groups(case, r, res, seed, idx)
 
 
+
+# ------------------------------------------------------------------ group-derived durations (conservation only)
+# group_by_until with a duration selector that is derived from the group itself (group.skip(m-1), i.e. "expire after m
+# elements"). The statement does not say whether the element that triggers expiry belongs to the expiring or to the
+# next group, but it must be delivered to exactly one group of its key, in arrival order, and nothing may be lost.
+
+def derived_duration_case(seed: int, idx: int, res: UnitResult) -> None:
+    r = case_rng(seed, ID, "derived", idx)
+    m = r.randint(1, 3)
+    nkeys = r.randint(1, 3)
+    tl = gen_timeline(r, "ints", maxlen=8, term=r.choice(["C", "C", "E", None]))
+    hot = r.random() < 0.4
+    msgs, seen = make_input(r, tl, hot)
+    lab = Lab("num")
+    src = lab.hot("s", msgs) if hot else lab.cold("s", msgs)
+    keyf = lambda v: v % nkeys  # noqa: E731
+    top = lab.observer("top")
+    o = src.pipe(ops.group_by_until(keyf, None, lambda g: g.pipe(ops.skip(m - 1))))
+    lab.at(SUB_AT, lambda: top.subscribe_to(o))
+    lab.run()
+    offered = []
+    for (t, k, v) in seen:
+        offered.append((t, k, v))
+        if k in "EC":
+            break
+    elems = [(t, v) for (t, k, v) in offered if k == "N"]
+    per_key: dict = {}
+    for t, v in elems:
+        per_key.setdefault(keyf(v), []).append((t, v))
+    got_per_key: dict = {}
+    groups = []
+    for g, child in zip([x for x in top.values], top.children):
+        groups.append((g.key, child.timed()))
+        got_per_key.setdefault(g.key, []).extend((t, v) for (t, k, v) in child.timed() if k == "N")
+    desc = {"family": "derived-duration", "expire_after": m, "keys": nkeys, "hot": hot, "timeline": show_timeline(tl)}
+    res.case(key=desc, nontrivial=len(elems) >= 2,
+             sample={"case": desc, "groups": [[k, [[t, kk, show(v)] for (t, kk, v) in tr]] for k, tr in groups]} if idx % 50 == 0 else None)
+    res.count("derived_duration_cases")
+    res.count("derived_duration_elements", len(elems))
+    problem = None
+    for key, exp in per_key.items():
+        got = got_per_key.get(key, [])
+        if [(t, strict(v)) for t, v in got] != [(t, strict(v)) for t, v in exp]:
+            lost = [v for (t, v) in exp if (t, strict(v)) not in [(tt, strict(vv)) for tt, vv in got]]
+            what = "element-lost" if lost else ("element-duplicated" if len(got) > len(exp) else "order")
+            problem = ("C19:group_by_until:derived-duration:%s" % what, {"key": key, "expected_elements": [[t, show(v)] for t, v in exp],
+                                                                          "delivered_to_groups_of_key": [[t, show(v)] for t, v in got]})
+            break
+    for key in got_per_key:
+        if key not in per_key and got_per_key[key]:
+            problem = problem or ("C19:group_by_until:derived-duration:foreign-element", {"key": key})
+    if problem is None:
+        for (gk, tr) in groups:
+            if any(keyf(v) != gk for (t, k, v) in tr if k == "N"):
+                problem = ("C19:group_by_until:derived-duration:element-on-group-of-other-key", {"group": gk})
+            if sum(1 for (t, k, v) in tr if k == "N") > m:
+                problem = problem or ("C19:group_by_until:derived-duration:group-outlived-its-duration", {"group": gk, "elements": len(tr)})
+    if problem:
+        problem[1]["case"] = desc
+        problem[1]["groups"] = [[k, [[t, kk, show(v)] for (t, kk, v) in tr]] for k, tr in groups]
+        res.violation(problem[0], problem[1], {"seed": seed, "idx": idx, "family": "derived"})
+
 def run_unit(unit: dict, res: UnitResult) -> None:
     for idx in range(unit["lo"], unit["hi"]):
         run_case(unit["seed"], idx, res)
+        if idx % 5 == 0:
+            derived_duration_case(unit["seed"], idx, res)
 
 
 def replay(rep: dict, res: UnitResult) -> None:
+    if rep.get("family") == "derived":
+        derived_duration_case(rep["seed"], rep["idx"], res)
+        return
     run_case(rep["seed"], rep["idx"], res)
